@@ -116,6 +116,8 @@ type step struct {
 	faultPutEarly bool
 	faultGet      codes.Code
 	faultFm       codes.Code
+	streamPiece   int // > 0: ByteStream.Read was served from a streaming CAS buffer
+	streamFail    int
 }
 
 func (b *memBackend) copyMap() map[string][]byte {
